@@ -7,6 +7,21 @@ ROOT = os.path.dirname(os.path.dirname(os.path.abspath(__file__)))
 
 # id -> (category, technique, level text, level note, design ref)
 CHECKS = {
+    "C06": ("model_checking",
+            "TLA+ grammar of the binary format over 16-bit limbs checked by TLC (Parse o Ser = id) + byte-exact comparison of real dumps with the specification's stream + TLC parsing dumps of random bit patterns",
+            "TLC checks the round-trip and grammar laws for 20 catalogue stacks covering every serialisable layer and value sets with signed zeros, subnormals, infinities and NaN payloads; every instance is built on the real library, dumped and compared byte for byte with the stream the specification prescribes (an independent definition of the format), reloaded, compared layer by layer and bit by bit, and re-dumped; random bit patterns dumped by the library are parsed independently by TLC.",
+            "Trusted: TLC, g++ 12, harness/h_io.cpp (memcpy-based projection of configurations and stored scalars). Extents are 1..3 per axis plus one value set with more than 256 cells.",
+            "DESIGN.md section 4, C06"),
+    "C07": ("model_checking",
+            "TLA+ portability relation (same on-disk shape) and IEEE-754 widen/narrow oracle on limbs checked by TLC + every (file, reading type) pair replayed + committed golden files parsed by TLC",
+            "TLC checks that a file parses under exactly the types with the same on-disk shape and that configurations are kept while values are widened exactly or narrowed to nearest-even (Float.tla, incl. ties and subnormal results); every pair is replayed on the real loader and compared with the specification's Retype; the hardware conversions are compared with the Float oracle; 20 golden files (16 written by the pinned revision) must load, equal their manifest, re-dump to the same bytes and be accepted by TLC as sentences of the format.",
+            "Trusted: TLC, g++ 12, harness/h_io.cpp, the golden files' manifest. Cross-width comparison only for finite values within float range (as stated).",
+            "DESIGN.md section 4, C07"),
+    "C08": ("model_checking",
+            "TLA+ state machine of the loader over faulty streams checked by TLC (safety + liveness) + complete fault enumeration replayed on the real loader in forked children (assertion+ASan, NDEBUG, valgrind sample)",
+            "TLC checks, for every catalogue instance in scope and every fault (writer interrupted after any limb, any header/footer/tag/width limb replaced, failure at the n-th read, incompatible reading stack), that the loader never returns or aborts and eventually throws, and that it terminates; every enumerated fault - truncation at every byte offset - is applied to the real dump and loaded by the real loader behind a fault-injecting streambuf in a forked child, the observed outcome must be `threw` in the assertion+ASan build and the NDEBUG build, and a sample runs under valgrind to expose decisions on uninitialised data.",
+            "Trusted: TLC, g++ 12, ASan/UBSan, valgrind, fork-based outcome classification. Assumes payloads do not contain the magic words; count-word corruption is outside the property's fault list.",
+            "DESIGN.md section 4, C08"),
     "C15": ("exploration",
             "TLC-generated programs (behaviours of the Lifecycle spec and in-domain lookup cases of the functional specs) executed in four build configurations under ASan/UBSan/LSan and valgrind, each compared step by step with the specification's state",
             "The randomly generated programs the property asks for are the behaviours TLC generates from spec/LifecycleGen.tla (one per transition of the abstract state graph plus seeded 30-operation simulations) and the in-domain lookup cases emitted by the Coord and Interp modules; every program runs at -O0 and -O1 with assertions under ASan+UBSan+LSan, at -O2 -DNDEBUG, and at -O2 -DNDEBUG under valgrind memcheck, and every build must reproduce the state the specification prescribes after every step (so debug and release agree with each other).",
